@@ -255,10 +255,11 @@ func (w *worker) emit(cs *caseT) {
 	}
 	// distinct non-trivial case: decoded at least to the message type, or rejected at a distinct stage
 	r.dset[fmt.Sprintf("%s|%02x|%s|%s|%s|%s|%s|%s", cs.Reactor, cs.Ch, cs.Msg, cs.Field, cs.Class, cs.State, cs.Peer, out.Stage)] = struct{}{}
-	if len(r.Samples) < 2 && (out.Stage == "peer-state-changed" || out.Stage == "node-state-changed" || out.Stage == "rejected-peer-stopped") && cs.Kind != "valid" {
+	if len(r.Samples) < 1 && out.Stage != "decode-error" && out.Stage != "accepted-no-effect" && out.Stage != "roundtrip-ok" && out.Stage != "conn:error" &&
+		out.Stage != "tx:ignored-unknown-peer" && cs.Kind != "valid" {
 		c := *cs
 		c.freeze()
-		if len(c.Hex) < 600 {
+		if len(c.Hex) < 1400 {
 			b, _ := json.Marshal(map[string]interface{}{"case": c, "stage": out.Stage, "alloc_bytes": out.Alloc})
 			r.Samples = append(r.Samples, b)
 		}
